@@ -11,6 +11,12 @@ CLAIMED = {
    technique="TLA+ state machine of the enumeration loop + TLC exhaustive + behaviour replay into the index functions",
    engine="FockBasis"),
 }
+CLAIMED["C20"] = dict(
+   category="model_checking", design_ref="§3 C20",
+   text="PqExpr.tla is an exact reference semantics of the expression fragment (CPython int/bool/float/tuple/list rules, short circuit, chained comparison, index/slice normalisation, error classes) with an AST enumerator and a minimal-parenthesis printer; TLC enumerates all ASTs <=3 postfix tokens exhaustively and simulates ~15k (thorough ~150k) up to 9 tokens, for all outcome tuples of length <=2 (3). Every expression is checked three ways (spec value = piquasso Expression = CPython eval), again with np.int32 operands and through Instruction.when / string parameters. Rejection: hostile corpus + token mutations must raise InvalidExpression at construction with no exec/import/os audit events; every recorded construction/call is trace-validated by TLC against PqExprLife.tla (accept decision = spec grammar, no evaluation unless accepted).",
+   note="Trusted: TLC, CPython's parser and eval as the meaning of 'what Python means' (spec/CPython disagreement is a machinery failure). numpy-scalar semantics are compared only where CPython gives the same answer for np.int32 and int operands.",
+   technique="TLA+ reference interpreter + TLC enumeration/simulation replayed into Expression, three-way with CPython; TLC trace validation of the expression life cycle",
+   engine="PqExpr")
 NOT_APPLICABLE_REASON = {}
 def main():
     checks = []
